@@ -408,6 +408,9 @@ func (st *State) applyContract(fc *FuncContract, origin, inst *ssa.Function, arg
 		for i, tp := range tps {
 			if i < len(tas) {
 				tenv[tp.Obj().Name()] = tas[i]
+				if tas[i] != types.Type(tp) {
+					tpSubst[tp] = tas[i]
+				}
 			}
 		}
 	} else {
